@@ -19,6 +19,7 @@
 import copy
 import json
 import random
+import time
 from concurrent.futures import ThreadPoolExecutor
 
 from harness.core import (MachineryError, REPO, model_check, read_events, require, run_driver, seed, spec_mutant, tlc,
@@ -71,6 +72,8 @@ def run(rep, tier):
     # the library / session driver runs while TLC works on the line-edit layer
     pool = ThreadPoolExecutor(max_workers=1)
     fut = pool.submit(run_driver, "c13", ["edit", evp, seed(), n_per, ",".join(theories), nsess], timeout=7200)
+    t0 = time.time()
+    timing = rep.notes.setdefault("timing_s", {})
     try:
         r = model_check("C13_Editor", "C13_Editor_small.cfg" if quick else "C13_Editor_deep.cfg", wd=wd / "mc", workers=2, timeout=3000)
         rep.add_mc("C13_Editor", r, "MaxOps=%d" % (3 if quick else 4))
@@ -82,7 +85,7 @@ def run(rep, tier):
         if not quick:
             runs.append(("C13_LineEdit_deep.cfg", "all behaviours of <= 3 actions, 6 lines", None))
             runs.append(("C13_LineEdit_inv.cfg", "invariants only, <= 4 actions, 12 lines", None))
-            runs.append(("C13_LineEdit_sim.cfg", "simulated behaviours of 8 actions", "num=3000"))
+            runs.append(("C13_LineEdit_sim.cfg", "simulated behaviours of 8 actions", "num=1200"))
         for cfg, what, sim in runs:
             if sim:
                 rl = tlc("C13_LineEdit", cfg, wd=wd / "mc", simulate=sim, depth=12, seed_=seed() + 1, timeout=3000)
@@ -97,7 +100,9 @@ def run(rep, tier):
         rep.exhaustive = True
         (wd / "lineedit_vectors.log").write_text("\n".join(logs))
         lep = wd / "lineedit.ndjson"
-        run_driver("c13", ["lineedit", wd / "lineedit_vectors.log", lep, seed()], timeout=7200)
+        timing["tlc_specs"] = round(time.time() - t0, 1)
+        _, timing["driver_lineedit"] = run_driver("c13", ["lineedit", wd / "lineedit_vectors.log", lep, seed()], timeout=7200)
+        t1 = time.time()
         spec_mutant(rep, "add_line_does_not_renumber_prevs", "C13_Editor", "C13_Editor_small.cfg",
                     [("C13_Editor.tla", "ELSE MapItem(prf[i-1], inc, inc, 1)]", "ELSE MapItem(prf[i-1], inc, LAMBDA x : x, 1)]")],
                     ["CitationsTrackItems", "NoDanglingUnlessRemoved", "Contiguous"], wd=wd, workers=2)
@@ -108,7 +113,8 @@ def run(rep, tier):
             spec_mutant(rep, "replace_id_same_level_only", "C13_Editor", "C13_Editor_small.cfg",
                         [("C13_Editor.tla", "p1 == [i \\in 1..Len(prf) |-> MapItem(prf[i], same, re, 1)]",
                           "p1 == [i \\in 1..Len(prf) |-> MapItem(prf[i], same, re, 0)]")], ["ReplacedCitationsFollow"], wd=wd, workers=2)
-        fut.result()
+        timing["spec_mutants"] = round(time.time() - t1, 1)
+        timing["driver_edit (in parallel with the above)"] = round(fut.result()[1], 1)
     finally:
         pool.shutdown(wait=True)
     evs = read_events(evp)
@@ -119,6 +125,7 @@ def run(rep, tier):
     write_events(allp, evs + les)
     v = validate_trace("C13_EditorTrace", allp, wd=wd / "tv", nchunks=1 if quick else 4)
     rep.states += v.get("states", 0)
+    timing["trace_validation"] = round(v["wall"], 1)
     rep.add_trace_result("edit", evs, part(v, {e["tid"] for e in evs}), keyf=keyf, sample_n=1)
     rep.add_trace_result("lineedit", les, part(v, {e["tid"] for e in les}), sample_n=1)
     rep.samples = [{"trace": s["trace"], "event": {k: x for k, x in s["event"].items() if k not in ("expimp", "copy", "before", "after", "expect")}}
